@@ -135,6 +135,8 @@ def pause_actions_writes_both(ctx):
                   "deadline written from unexpected expression: " + rhs)
 
 def run(ctx):
+    from .C11 import instances_leave_only_through_the_sweep
+    instances_leave_only_through_the_sweep(ctx)      # the per-cgroup post-action pause lives in the instance
     from .C13 import compile_keeps_nothing_between_calls
     compile_keeps_nothing_between_calls(ctx, "C05")      # a setting a ruleset omits is the default, not what the previous compile left
     from .C02 import engine_evaluation_order
